@@ -76,40 +76,40 @@ PROPS["C11"] = {
 }
 
 PROPS["C19"] = {
-    "modules": ["Gmsm.Props.C19"],
+    "modules": ["Gmsm.Props.C19", "Gmsm.Props.C19Stream"],
     "theorems": [
         "Props.C19.reader_stream", "Props.C19.readAll_spec", "Props.C19.writer_stream", "Props.C19.unpad_padStream",
         "Props.C19.writer_inverse", "Props.C19.cache_le_block", "Props.C19.oldReader_short_read_witness",
-        "Proofs.Padding.fill_spec", "Proofs.Padding.rinv_read", "Proofs.Padding.winv_write",
+        "Proofs.Padding.fill_spec", "Proofs.Padding.rinv_read", "Proofs.Padding.winv_write", "Props.C19Stream.enc_stream", "Props.C19Stream.enc_script_independent", "Props.C19Stream.dec_stream", "Props.C19Stream.dec_notMultiple_iff", "Props.C19Stream.dec_ok_iff", "Props.C19Stream.dec_badPad_iff", "Props.C19Stream.enc_dec_stream", "Props.C19Stream.cbc_enc_dec_stream", "Props.C19Stream.sm4_enc_stream", "Props.C19Stream.sm4_dec_stream", "Props.C19Stream.sm4_enc_dec_stream", "Props.C19Stream.read_len",
     ],
     "gen_items": [],
     "level": "proof",
-    "claim": "Lean 4 theorems over a state-machine model of the padding reader and writer: for every data, block size, source behaviour (short reads, zero-byte reads, data returned together with EOF) and caller buffer sizes the reader's output is always a prefix of data||pad and equals it once EOF is returned (invariant by induction over Read calls); for every sequence of write sizes the un-padding writer forwards exactly the un-padded stream and Final errs exactly on an invalid pad; un-pad inverts pad for block sizes 1..255. The stream helpers are compared with SM4-CBC of the padded stream computed in Lean, under scripted sources.",
+    "claim": "Lean 4 theorems over a state-machine model of the padding reader and writer: for every data, block size, source behaviour (short reads, zero-byte reads, data returned together with EOF) and caller buffer sizes the reader's output is always a prefix of data||pad and equals it once EOF is returned (invariant by induction over Read calls); for every sequence of write sizes the un-padding writer forwards exactly the un-padded stream and Final errs exactly on an invalid pad; un-pad inverts pad for block sizes 1..255. The stream helpers are compared with SM4-CBC of the padded stream computed in Lean, under scripted sources. Added (C19Stream): a model of the two helper loops of bloc_cryptor.go (io.ReadFull refills of a 1024-byte buffer over scripted sources, CryptBlocks with chained state, the padding reader / writer) with theorems for every data, every source script and both block sizes: enc_stream (the output is block-mode encryption of data||pad whatever the read pattern), dec_stream with exact characterisations of the two errors, enc_dec_stream / sm4_enc_dec_stream (decrypting the encryption returns the data, through any two read patterns), read_len (a Read into a non-empty buffer returns at most len(buf) bytes and, unless EOF, at least one); the driver now evaluates this model for p7stream / p7rt8 and cross-checks it against the spec answer.",
     "note": "Trusted: Lean kernel; the hand-written model of sm4/padding is tied to the code by differential runs with a scripted io.Reader (same script semantics on both sides); crypto/cipher CBC, bytes.Buffer/bytes.Reader and io.ReadFull are stdlib; P7BlockEnc/Decrypt loops are covered by correspondence (SM4-CBC spec oracle; 3DES round trip for block size 8), not by a theorem.",
     "trusted_base": [
         "Model.Padding mirrors pkcs7_padding_io.go (Reader.read, fill = the inner read loop, Writer.write/final); tie = padrd/padwr correspondence over source lengths 0..600 (quick) / 0..5000 (thorough), block sizes 8 and 16, scripts of up to 6 entries over {0, 1, short, full, with-EOF}, buffer sizes 1..4096, write sizes 1..8192, invalid final blocks",
     ],
     "assumptions": ["the source honours the io.Reader contract and makes progress eventually (a source returning (0, nil) forever is outside the property)"],
-    "not_proved": ["enc_dec_stream as a theorem about the P7BlockEnc/P7BlockDecrypt loops (correspondence only)", "progress: Read with a non-empty buffer eventually returns data or EOF (argued from the script being finite; not a theorem)"],
+    "not_proved": ["3DES itself (p7rt8 runs the real 3DES-CBC; the model uses an abstract 8-byte block cipher)"],
 }
 
 PROPS["C12"] = {
-    "modules": ["Gmsm.Props.C12"],
+    "modules": ["Gmsm.Props.C12", "Gmsm.Props.C12Bytes"],
     "theorems": [
         "Props.C12.dec_enc", "Props.C12.sm4gcm_dec_enc", "Props.C12.ae_lengths", "Props.C12.tag_flip",
         "Props.C12.mul_linear", "Props.C12.ghash_single_block_partial", "Props.C12.counter_no_repeat",
-        "Proofs.GCM.gctr_involution", "Proofs.GCM.inc32_low", "Proofs.GCM.inc32_high",
+        "Proofs.GCM.gctr_involution", "Proofs.GCM.inc32_low", "Proofs.GCM.inc32_high", "Props.C12Bytes.rightshift_eq", "Props.C12Bytes.addition_eq", "Props.C12Bytes.findYi_eq", "Props.C12Bytes.multiplication_eq_mulGF", "Props.C12Bytes.ghashGo_eq_ghash", "Props.C12Bytes.incr_eq_inc32", "Props.C12Bytes.incr_block", "Props.C12Bytes.multiplication_bytes", "Props.C12Bytes.ghashGo_bytes",
     ],
     "gen_items": ["sm4."],
     "level": "proof",
-    "claim": "Spec.GCM is SP 800-38D in Lean (validated on the RFC 8998 SM4-GCM vector and against crypto/cipher GCM over SM4 on every run). Theorems for every key, IV, additional data and plaintext: AD(AE(P)) = P with the tag accepted (GCTR involution), lengths, a tag is accepted iff it equals the recomputed one, GF(2^128) multiplication is linear, counter blocks never repeat below 2^32 blocks, and — for hash keys H whose multiplication is injective — changing any single GHASH block changes the tag (the _partial authentication theorem; the unconditional field statement is not proved). The repaired sm4_gcm.go (GCMEncrypt/GCMDecrypt/GHASH/multiplication) and the TLS suites' GCM are compared with the spec on every run.",
+    "claim": "Spec.GCM is SP 800-38D in Lean (validated on the RFC 8998 SM4-GCM vector and against crypto/cipher GCM over SM4 on every run). Theorems for every key, IV, additional data and plaintext: AD(AE(P)) = P with the tag accepted (GCTR involution), lengths, a tag is accepted iff it equals the recomputed one, GF(2^128) multiplication is linear, counter blocks never repeat below 2^32 blocks, and — for hash keys H whose multiplication is injective — changing any single GHASH block changes the tag (the _partial authentication theorem; the unconditional field statement is not proved). The repaired sm4_gcm.go (GCMEncrypt/GCMDecrypt/GHASH/multiplication) and the TLS suites' GCM are compared with the spec on every run. Added (C12Bytes): byte-level transcriptions of the Go functions (findYi, addition, Rightshift, multiplication with the 0xe1 reduction, the GHASH block loop with its m,v bookkeeping, the counter increment) are proved equal to SP 800-38D for all inputs: multiplication_eq_mulGF, ghashGo_eq_ghash (all lengths of A and C incl. empty and partial blocks), incr_eq_inc32 / incr_block; the driver evaluates the byte-level model next to the spec (gfmulb / ghashb) on every run.",
     "note": "Trusted: Lean kernel; the SP 800-38D transcription; equality of sm4_gcm.go with the spec is by differential runs (all |A|,|P| in 0..40 quick / 0..80 thorough, IV lengths 1..64 with 0xff/0xfe bias, single-bit tampering), not by translation; GF(2^128) has no zero divisors is a hypothesis of the authentication theorem.",
     "trusted_base": [
         "Spec.GCM transcription of NIST SP 800-38D (Algorithms 1-5)",
         "sm4_gcm.go is tied to Spec.GCM by the gcmenc/gcmdec/ghash/gfmul correspondence (hook: sm4.VerifMultiplication); crypto/cipher GCM over sm4.NewCipher (TLS path) by gcmtls",
     ],
     "assumptions": ["hypothesis of ghash_single_block_partial: multiplication by the hash key H is injective (holds for every H != 0 in the field GF(2^128))"],
-    "not_proved": ["GF(2^128) no-zero-divisors for the bit-level mulGF (T3)", "byte-level Go multiplication = Spec.mulGF as a theorem (correspondence only)"],
+    "not_proved": ["GF(2^128) no-zero-divisors for the bit-level mulGF (T3)", "GCMEncrypt / GCMDecrypt top-level glue (slicing, tag comparison) as a byte-level model"],
 }
 
 PROPS["C07"] = {
@@ -172,15 +172,15 @@ PROPS["C03"] = {
 }
 
 PROPS["C01"] = {
-    "modules": ["Gmsm.Props.C01", "Gmsm.Props.C03"],
+    "modules": ["Gmsm.Props.C01", "Gmsm.Props.C03", "Gmsm.Props.SM2Group"],
     "theorems": [
         "Props.C01.verify_range", "Props.C01.verify_altered_msg_iff", "Props.C01.verify_sign", "Props.C01.smul_mod_order",
         "Props.C01.der_roundtrip", "Props.C01.der_trailing_rejected", "Props.C01.decIntContent_intContent",
-        "Props.C03.nonce_range", "Props.C03.n_prime",
+        "Props.C03.nonce_range", "Props.C03.n_prime", "Props.SM2Group.verify_signWith", "Proofs.SM2Affine.padd_eq", "Proofs.SM2Affine.smul_eq", "Proofs.SM2Affine.invMod_eq", "Proofs.SM2Affine.toPoint_inj", "Props.SM2Group.smul_mod_G",
     ],
     "gen_items": ["sm2."],
     "level": "proof",
-    "claim": "Spec.SM2 is GM/T 0003.2 in Lean (reproduces the standard's example signature). Theorems: the completeness algebra verify(sign) over any commutative group with [q]G = O; r, s outside [1,n-1] or r+s = 0 mod n are rejected whatever else; a signature valid for digest e is accepted for e' iff e' = e mod n (exact characterisation: soundness against altered messages/IDs reduces to SM3); the strict DER codec of SEQUENCE{INTEGER r, INTEGER s} round-trips for all r,s < 2^256 and rejects trailing bytes. The real Sm2Sign/Sign/Sm2Verify/Verify are compared with the spec (exact r,s for the same nonce bytes, number of random bytes consumed, DER bytes, acceptance of every single-field perturbation and non-canonical encoding) on every run.",
+    "claim": "Spec.SM2 is GM/T 0003.2 in Lean (reproduces the standard's example signature). Theorems: the completeness algebra verify(sign) over any commutative group with [q]G = O; r, s outside [1,n-1] or r+s = 0 mod n are rejected whatever else; a signature valid for digest e is accepted for e' iff e' = e mod n (exact characterisation: soundness against altered messages/IDs reduces to SM3); the strict DER codec of SEQUENCE{INTEGER r, INTEGER s} round-trips for all r,s < 2^256 and rejects trailing bytes. The real Sm2Sign/Sign/Sm2Verify/Verify are compared with the spec (exact r,s for the same nonce bytes, number of random bytes consumed, DER bytes, acceptance of every single-field perturbation and non-canonical encoding) on every run. Added (Proofs.SM2Affine / Props.SM2Group): the executable affine spec IS the group: padd_eq and smul_eq identify Spec.SM2.padd / smul (Fermat inversion, double-and-add) with addition and scalar multiplication of Mathlib's Weierstrass point group over ZMod p for every valid point (p, n prime by the Pratt/Lucas certificates), toPoint_inj transfers equalities back; hence verify_signWith: every signature signWith produces for any private key 1 <= d < n-1, digest e and nonce 1 <= k < n verifies under the public key [d]G — with no group-law hypothesis left.",
     "note": "Hardness is never assumed as an axiom: soundness is the characterisation theorem. The group-law facts the completeness algebra needs are C03's. Not proved: der_canonical (decode b = some (r,s) -> b = encode (r,s)); 'two signatures never share r' is reduced to fresh reader bytes (nonce = f(40 fresh bytes), checked by the consumed-bytes count in the correspondence).",
     "trusted_base": ["Spec.SM2.signWith/verifyE/za transcribe GM/T 0003.2; tie to sm2.go by sm2sign/sm2signder/sm2verify/sm2verifyder correspondence with deterministic readers; cryptobyte DER parsing is x/crypto code"],
     "assumptions": ["x-coordinate extraction and scalar multiplication implement the group (C03)"],
@@ -188,29 +188,29 @@ PROPS["C01"] = {
 }
 
 PROPS["C02"] = {
-    "modules": ["Gmsm.Props.C02"],
+    "modules": ["Gmsm.Props.C02", "Gmsm.Props.SM2Group"],
     "theorems": [
         "Props.C02.decrypt_rejects_short", "Props.C02.decrypt_rejects_offcurve", "Props.C02.decrypt_accepts_hash",
-        "Props.C02.altered_implies_collision", "Props.C02.kdf_length", "Props.C02.encrypt_empty_none",
+        "Props.C02.altered_implies_collision", "Props.C02.kdf_length", "Props.C02.encrypt_empty_none", "Props.SM2Group.decrypt_encrypt", "Props.SM2Group.decrypt_encrypt_gen", "Props.SM2Group.smul_smul_comm", "Proofs.SM2Affine.padd_eq", "Proofs.SM2Affine.smul_eq",
     ],
     "gen_items": ["sm2."],
     "level": "proof",
-    "claim": "Spec.SM2.encryptWith/decrypt is GM/T 0003.4 in Lean. Theorems for every key and input: ciphertexts shorter than 97 bytes and ciphertexts whose C1 is off the curve are errors (no multiplication by d happens on an invalid-curve point); decryption accepts only if C3 = SM3(x2||m||y2) and m = C2 xor KDF(x2||y2), so two accepted ciphertexts with the same C1, C3 and different plaintexts are an SM3 collision (reduction, no hardness claimed); KDF length; the empty plaintext is never encrypted (termination with an error). The real Encrypt/Decrypt/EncryptAsn1/DecryptAsn1 are compared byte-for-byte with the spec for the same nonce bytes, for every length class, both orderings, raw and ASN.1, truncations, single-byte changes, off-curve C1, wrong key.",
+    "claim": "Spec.SM2.encryptWith/decrypt is GM/T 0003.4 in Lean. Theorems for every key and input: ciphertexts shorter than 97 bytes and ciphertexts whose C1 is off the curve are errors (no multiplication by d happens on an invalid-curve point); decryption accepts only if C3 = SM3(x2||m||y2) and m = C2 xor KDF(x2||y2), so two accepted ciphertexts with the same C1, C3 and different plaintexts are an SM3 collision (reduction, no hardness claimed); KDF length; the empty plaintext is never encrypted (termination with an error). The real Encrypt/Decrypt/EncryptAsn1/DecryptAsn1 are compared byte-for-byte with the spec for the same nonce bytes, for every length class, both orderings, raw and ASN.1, truncations, single-byte changes, off-curve C1, wrong key. Added (Proofs.SM2Affine / Props.SM2Group): the executable affine spec IS the group: padd_eq and smul_eq identify Spec.SM2.padd / smul (Fermat inversion, double-and-add) with addition and scalar multiplication of Mathlib's Weierstrass point group over ZMod p for every valid point (p, n prime by the Pratt/Lucas certificates), toPoint_inj transfers equalities back; hence decrypt_encrypt: for every private key 1 <= d < n, nonce 1 <= k < n, non-empty message and both ciphertext orderings, decrypting what encryptWith produced for [d]G returns the message — unconditionally.",
     "note": "decrypt(encrypt m) = m as a Lean theorem needs [d][k]G = [k][d]G for the Nat-level affine arithmetic, i.e. the group structure of Spec.SM2.padd, which is only established through Mathlib's curve for the Jacobian formulas (C03); the round trip is therefore decided by correspondence (real code decrypts what it encrypted, and equals the spec) and listed as not proved.",
     "trusted_base": ["Spec.SM2 transcription of GM/T 0003.4; tie by sm2enc/sm2dec correspondence; encoding/asn1 is stdlib"],
     "assumptions": [],
-    "not_proved": ["decrypt_encrypt as a theorem (group commutativity of Spec.SM2.smul)", "cipher_asn1_roundtrip as a theorem"],
+    "not_proved": ["cipher_asn1_roundtrip as a theorem"],
 }
 
 PROPS["C13"] = {
-    "modules": ["Gmsm.Props.C13"],
+    "modules": ["Gmsm.Props.C13", "Gmsm.Props.SM2Group"],
     "theorems": [
         "Props.C13.shared_point_agree", "Props.C13.reduce_scalar", "Props.C13.xbar_range", "Props.C13.xbar_mod",
-        "Props.C13.offcurve_rejected", "Props.C13.infinity_not_on_curve", "Props.C13.outputs_from_V",
+        "Props.C13.offcurve_rejected", "Props.C13.infinity_not_on_curve", "Props.C13.outputs_from_V", "Props.SM2Group.kex_agree", "Props.SM2Group.smul_smul_comm_G", "Props.SM2Group.smul_mul_mod_G", "Props.SM2Group.addOrderOf_G",
     ],
     "gen_items": ["sm2."],
     "level": "proof",
-    "claim": "Spec.SM2.kex is GM/T 0003.3 (reproduces the standard's example K, S1, S2). Theorems: over any commutative group both parties' points [tA](PB+[x2bar]RB) and [tB](PA+[x1bar]RA) coincide; xbar keeps the low 127 bits and sets bit 127; equal V gives identical (K, S1, S2) on both sides; an ephemeral point off the curve - including (0,0) - is an error. The repaired KeyExchangeA/B are compared with the spec for both roles (keys with leading-zero coordinates, identities 0..8192 bytes, key lengths 1..1024, off-curve / infinite ephemeral points).",
+    "claim": "Spec.SM2.kex is GM/T 0003.3 (reproduces the standard's example K, S1, S2). Theorems: over any commutative group both parties' points [tA](PB+[x2bar]RB) and [tB](PA+[x1bar]RA) coincide; xbar keeps the low 127 bits and sets bit 127; equal V gives identical (K, S1, S2) on both sides; an ephemeral point off the curve - including (0,0) - is an error. The repaired KeyExchangeA/B are compared with the spec for both roles (keys with leading-zero coordinates, identities 0..8192 bytes, key lengths 1..1024, off-curve / infinite ephemeral points). Added (Proofs.SM2Affine / Props.SM2Group): the executable affine spec IS the group: padd_eq and smul_eq identify Spec.SM2.padd / smul (Fermat inversion, double-and-add) with addition and scalar multiplication of Mathlib's Weierstrass point group over ZMod p for every valid point (p, n prime by the Pratt/Lucas certificates), toPoint_inj transfers equalities back; hence kex_agree: honest initiator and responder (any long-term and ephemeral scalars in range) compute identical key, S1 and S2 — the hypothesis hV of outputs_from_V is discharged.",
     "note": "Trusted: the transcription of GM/T 0003.3 (validated on the published example: K = 6C893473..., S1 = D3A0FE15..., S2 = 18C7894B...); group facts from C03.",
     "trusted_base": ["Spec.SM2.kex; tie by sm2kex/sm2kexbad correspondence"],
     "assumptions": [],
@@ -234,19 +234,19 @@ PROPS["C14"] = {
 }
 
 PROPS["C09"] = {
-    "modules": ["Gmsm.Props.C09"],
+    "modules": ["Gmsm.Props.C09", "Gmsm.Props.C09Ext"],
     "theorems": [
         "Props.C09.sign_verify_consistent", "Props.C09.cross_family_rejected", "Props.C09.algo_tables_consistent",
-        "Props.C09.oid_injective", "Props.C09.creators_decide_by_signer_key", "Props.C09.default_sm2_mismatch_before_repair",
+        "Props.C09.oid_injective", "Props.C09.creators_decide_by_signer_key", "Props.C09.default_sm2_mismatch_before_repair", "Props.C09Ext.reverseBits_spec", "Props.C09Ext.reverseBits_involutive", "Props.C09Ext.asn1BitLength_spec", "Props.C09Ext.keyUsage_roundtrip", "Props.C09Ext.keyUsage_named_bits", "Props.C09Ext.keyUsage_minimal", "Props.C09Ext.keyUsage_injective", "Props.C09Ext.keyUsage_high_bit_dropped", "Props.C09Ext.keyUsage_ext_shape", "Props.C09Ext.keyUsage_ext_roundtrip", "Props.C09Ext.basicConstraints_roundtrip", "Props.C09Ext.basicConstraints_survives_iff", "Props.C09Ext.basicConstraints_unset", "Props.C09Ext.basicConstraints_flag_lost", "Props.C09Ext.basicConstraints_stable", "Props.C09Ext.int_roundtrip", "Props.C09Ext.marshalBC_roundtrip", "Props.C09Ext.basicConstraints_ext_roundtrip",
     ],
     "gen_items": ["x509."],
     "gen_obligations": ["Gen.X509.details / verifyHash / defaults / signInput_* regenerated from x509/x509.go and utils.go (signatureAlgorithmDetails, the switch in checkSignature, signingParamsForPublicKey, the raw-vs-digest guard of the three creators)"],
     "level": "proof",
-    "claim": "The decision tables of signing and verification are regenerated from the source on every run and the consistency theorem is exhaustive over them (the quantifier is the table): for every signer key family and every requested algorithm left to default or in-family, the creator accepts and the bytes the signer's scheme covers are exactly those the verifier checks for the algorithm recovered from the written OID; hash tables agree; OIDs identify algorithms. Whole objects are decided by the correspondence run: certificates, CSRs, v2 and legacy CRLs created from generated templates (negative / 20-byte serials, multi-valued and extra name attributes, UTCTime and GeneralizedTime validity, usages, constraints, SANs, name constraints, policies, extra extensions) x {SM2, RSA, ECDSA signer} x {unset, in-family, mismatching} algorithms are parsed back and compared field by field, verified under the issuer, refused under another key, and refused after every single-byte change (xor 0x01 and 0x80) of the signed bytes and of the signature BIT STRING incl. its unused-bits octet; a child issued under a parsed parent with an unusual subject must carry the parent's subject bytes and verify.",
+    "claim": "The decision tables of signing and verification are regenerated from the source on every run and the consistency theorem is exhaustive over them (the quantifier is the table): for every signer key family and every requested algorithm left to default or in-family, the creator accepts and the bytes the signer's scheme covers are exactly those the verifier checks for the algorithm recovered from the written OID; hash tables agree; OIDs identify algorithms. Whole objects are decided by the correspondence run: certificates, CSRs, v2 and legacy CRLs created from generated templates (negative / 20-byte serials, multi-valued and extra name attributes, UTCTime and GeneralizedTime validity, usages, constraints, SANs, name constraints, policies, extra extensions) x {SM2, RSA, ECDSA signer} x {unset, in-family, mismatching} algorithms are parsed back and compared field by field, verified under the issuer, refused under another key, and refused after every single-byte change (xor 0x01 and 0x80) of the signed bytes and of the signature BIT STRING incl. its unused-bits octet; a child issued under a parsed parent with an unusual subject must carry the parent's subject bytes and verify. Added (C09Ext): the hand-written extension codecs are modelled at byte level and proved: KeyUsage (reverseBitsInAByte, asn1BitLength, the 1-or-2 byte rule, the At(i) decode loop, the DER BIT STRING) round-trips for all 512 values, is minimal and injective; BasicConstraints encode/decode incl. the MaxPathLen/MaxPathLenZero conventions with an exact characterisation of which templates survive (basicConstraints_survives_iff), through the DER INTEGER layer for every int64; the model's extension value bytes and parsed fields are compared with real certificates for all 512 key usages and 88+ BasicConstraints templates on every run (kuext / bcext).",
     "note": "Partial: the ASN.1 layer (encoding/asn1 reflection-based marshal/unmarshal) is trusted and exercised, not modelled; field round trips are intrinsic read-back oracles evaluated by the harness on the real code, the Lean side supplies the accept/reject decision and the table theorems.",
     "trusted_base": ["extract/x509.go table extraction", "harness/c09.go template generator and field comparison", "crypto/rsa, crypto/ecdsa, encoding/asn1 (stdlib)"],
     "assumptions": [],
-    "not_proved": ["ext_roundtrip_* (key-usage bit reversal, basic constraints, name constraints encoders) as Lean theorems", "verify_only_issuer over an ideal signature scheme (decided by the other-key and tamper sweeps)"],
+    "not_proved": ["name constraints / SAN / policy encoders as Lean theorems; DER long-form lengths (both modelled values are at most 15 bytes)", "verify_only_issuer over an ideal signature scheme (decided by the other-key and tamper sweeps)"],
 }
 
 PROPS["C17"] = {
